@@ -1,10 +1,14 @@
 #!/bin/bash
-# usage: tools/try_patch.sh <patch.diff> <Cxx> [Cyy ...]   applies the patch to /repo, runs the checks, reverts
-P="$1"; shift
-cd /repo && git status --short | grep -q . && { echo "repo dirty"; exit 2; }
-git -C /repo apply "$P" || { echo "patch does not apply"; exit 2; }
+# usage: tools/try_patch.sh <patch.diff> <Cxx> [Cyy ...]
+# Runs the checks against the patch WITHOUT touching /repo or /verif: a scratch worktree of /repo HEAD gets the patch,
+# a scratch copy of /verif (with its build output) runs the checks against it. Both are removed afterwards.
+P="$(readlink -f "$1")"; shift
+ID=$$
+WT=/tmp/tp_repo_$ID; VM=/tmp/tp_verif_$ID
+git -C /repo worktree add -q --detach $WT HEAD || exit 2
+git -C $WT apply "$P" || { echo "patch does not apply"; git -C /repo worktree remove --force $WT; exit 2; }
+mkdir -p $VM && rsync -a --exclude .git --exclude .cache --exclude replays --exclude seeded /verif/ $VM/
 for pid in "$@"; do
-  (cd /verif && timeout 3000 ./check "$pid" 2>&1 | tail -3)
+  (cd $VM && VERIF_REPO=$WT VERIF_HOME=$VM timeout 3000 ./check "$pid" 2>&1 | tail -3 | cut -c1-400)
 done
-git -C /repo checkout -- .
-git -C /repo status --short
+rm -rf $VM; git -C /repo worktree remove --force $WT
